@@ -228,9 +228,14 @@ func (R *Repository) activateLoadedStore(entry *Entry, store crlstore.CRLStore) 
 // is downloaded and parsed (used by the periodic update and by fetch_background)
 func (R *Repository) loadCRLInBackground(entry *Entry) error {
 	entry.entryLock.RLock()
+	loaded := entry.Loaded
 	chains := entry.Chains
 	locations, _ := entry.CRLStore.GetCRLLocations()
 	entry.entryLock.RUnlock()
+	if loaded {
+		//a handshake loaded the entry in the meantime (the chains are gone then)
+		return nil
+	}
 	store, err := R.loadCRLIntoTemporaryStore(entry, chains, locations)
 	if err != nil {
 		return err
@@ -514,6 +519,9 @@ func (R *Repository) getStoredCertAsChain(oldStore crlstore.CRLStore) (*core.Cer
 }
 
 func verifyCRLSignature(result *crlreader.CRLReadResult, chains *core.CertificateChains) (*core.CertificateChainEntry, error) {
+	if chains == nil {
+		return nil, errors.New("can not find CRL issuer certificate")
+	}
 	certCandidates, err := core.FindCertificateIssuerCandidates(result.Issuer, result.CRLExtensions, result.HashAndVerifyStrategy.VerifyStrategy.GetAlgorithmID(), chains)
 	if err != nil {
 		return nil, err
